@@ -16,6 +16,7 @@ import (
 	"path/filepath"
 	"strings"
 	"sync"
+	"syscall"
 	"time"
 
 	"gopkg.in/yaml.v3"
@@ -52,6 +53,8 @@ type c28Input struct {
 	Kind   string         `json:"kind"`
 	Fields []string       `json:"fields,omitempty"`
 	Rate   int64          `json:"rate,omitempty"`
+	Drop   bool           `json:"drop,omitempty"`
+	Scope  string         `json:"scope,omitempty"`
 	Tids   []string       `json:"tids,omitempty"`
 	Rules  map[string]any `json:"rules,omitempty"` // Samplers section
 	Main   map[string]any `json:"main,omitempty"`  // sections of the main configuration file (kind mainconfig)
@@ -172,7 +175,29 @@ func c28Downstream(r *rand.Rand, allowDet bool) (string, map[string]any) {
 	}
 }
 
+// rule-level static SampleRate: validation puts no bound on it
+func c28RuleRate(r *rand.Rand) int64 {
+	return []int64{-1, -2, -(1 << 32), -(1 << 62), 0, 1, 2, 10, 1 << 31, 1 << 32, 1<<62 + 1}[r.Intn(11)]
+}
+
+// conditions that the fixed traces of c28Traces satisfy, so that rules behind them are reached
+var c28MatchingConds = []map[string]any{
+	{"Field": "a", "Operator": "exists"},
+	{"Field": "http.status", "Operator": "=", "Value": 200, "Datatype": "int"},
+	{"Field": "service", "Operator": "=", "Value": "s"},
+	{"Field": "nope", "Operator": "not-exists"},
+	{"Operator": "has-root-span", "Value": true},
+	{"Fields": []any{"missing", "service.name"}, "Operator": "starts-with", "Value": "n"},
+}
+
 func c28Condition(r *rand.Rand) map[string]any {
+	if r.Intn(3) == 0 {
+		c := map[string]any{}
+		for k, v := range c28MatchingConds[r.Intn(len(c28MatchingConds))] {
+			c[k] = v
+		}
+		return c
+	}
 	ops := []string{"=", "!=", ">", ">=", "<", "<=", "starts-with", "contains", "does-not-contain", "exists", "not-exists",
 		"has-root-span", "matches", "in", "not-in"}
 	c := map[string]any{"Operator": ops[r.Intn(len(ops))]}
@@ -205,7 +230,7 @@ func c28Rules(r *rand.Rand) map[string]any {
 				case 0:
 					rule["Drop"] = true
 				case 1:
-					rule["SampleRate"] = c28Int(r)
+					rule["SampleRate"] = c28RuleRate(r)
 				case 2:
 					k, m := c28Downstream(r, true)
 					rule["Sampler"] = map[string]any{k: m}
@@ -330,8 +355,10 @@ func c28GenReq(r *rand.Rand) c28Req {
 
 func c28Gen(r *rand.Rand, tier string, i int) any {
 	switch x := r.Intn(100); {
-	case x < 20:
+	case x < 15:
 		return c28Input{Kind: "keyfields", Fields: c28PickFields(r)}
+	case x < 25:
+		return c28Input{Kind: "rulerate", Rate: c28RuleRate(r), Drop: r.Intn(4) == 0, Scope: []string{"", "trace", "span"}[r.Intn(3)]}
 	case x < 40:
 		in := c28Input{Kind: "detrate", Rate: c28Rates[r.Intn(len(c28Rates))]}
 		for k := 0; k < 3; k++ {
@@ -343,6 +370,13 @@ func c28Gen(r *rand.Rand, tier string, i int) any {
 	case x < 80:
 		tr := map[string]any{}
 		durs := []string{"1ns", "3ns", "4ns", "1us", "1ms", "100ms", "1s", "0s", "2562047h"}
+		// a duration at or above the validator's minimum most of the time (so that the file is accepted)
+		atLeast := func(min string) string {
+			if r.Intn(5) == 0 {
+				return durs[r.Intn(len(durs))]
+			}
+			return []string{min, min, "1h", "24h", "2562047h"}[r.Intn(5)]
+		}
 		if r.Intn(4) > 0 {
 			tr["BatchTimeout"] = durs[r.Intn(len(durs))]
 		}
@@ -350,15 +384,87 @@ func c28Gen(r *rand.Rand, tier string, i int) any {
 			tr["SendTicker"] = durs[r.Intn(len(durs))]
 		}
 		if r.Intn(3) == 0 {
-			tr["SendDelay"] = durs[r.Intn(len(durs))]
+			tr["SendDelay"] = atLeast("100ms")
 		}
 		if r.Intn(3) == 0 {
-			tr["MaxBatchSize"] = []int64{0, 1, 2, 500, 1 << 31, 1 << 40}[r.Intn(6)]
+			tr["MaxBatchSize"] = []int64{100, 101, 500, 1 << 31, 1 << 40, 99}[r.Intn(6)]
 		}
 		if r.Intn(4) == 0 {
-			tr["TraceTimeout"] = []string{"1s", "60s", "999ms", "2562047h"}[r.Intn(4)]
+			tr["TraceTimeout"] = []string{"1s", "60s", "1s", "2562047h", "999ms"}[r.Intn(5)]
 		}
-		return c28Input{Kind: "mainconfig", Main: map[string]any{"Traces": tr}}
+		if r.Intn(4) == 0 {
+			tr["SpanLimit"] = []int64{0, 1, 2, -1, 1 << 40}[r.Intn(5)]
+		}
+		if r.Intn(4) == 0 {
+			tr["MaxExpiredTraces"] = []int64{1000, 1000, 1001, 1 << 40, 999, 0}[r.Intn(6)]
+		}
+		main := map[string]any{"Traces": tr}
+		pick := func(vals ...any) any { return vals[r.Intn(len(vals))] }
+		if r.Intn(2) == 0 {
+			c := map[string]any{}
+			if r.Intn(2) == 0 {
+				c["WorkerCount"] = pick(0, 1, 2, 3, 64, 257, -1)
+			}
+			if r.Intn(2) == 0 {
+				c["IncomingQueueSize"] = pick(0, 1, -1, 3, 30000, 1<<22)
+			}
+			if r.Intn(2) == 0 {
+				c["PeerQueueSize"] = pick(0, 1, -1, 3, 30000, 1<<22)
+			}
+			if r.Intn(3) == 0 {
+				c["MaxAlloc"] = pick(0, 1, "1Mb", "1Gb", -1)
+			}
+			if r.Intn(3) == 0 {
+				c["AvailableMemory"] = pick("1Mb", "4Gb", 0, 1)
+				c["MaxMemoryPercentage"] = pick(10, 75, 100, 100, 9, 101)
+			}
+			if r.Intn(3) == 0 {
+				c["HealthCheckTimeout"] = durs[r.Intn(len(durs))]
+			}
+			if r.Intn(3) == 0 {
+				c["ShutdownDelay"] = durs[r.Intn(len(durs))]
+			}
+			main["Collection"] = c
+		}
+		if r.Intn(2) == 0 {
+			c := map[string]any{}
+			if r.Intn(2) == 0 {
+				c["KeptSize"] = pick(0, 1, 2, 3, 10000, 1<<22)
+			}
+			if r.Intn(2) == 0 {
+				c["DroppedSize"] = pick(0, 1, 2, 3, 10000, 1<<22)
+			}
+			if r.Intn(2) == 0 {
+				c["SizeCheckInterval"] = atLeast("1s")
+			}
+			main["SampleCache"] = c
+		}
+		if r.Intn(2) == 0 {
+			c := map[string]any{"Mode": pick("never", "always", "monitor", "always", "bogus")}
+			if r.Intn(2) == 0 {
+				c["ActivationLevel"] = pick(0, 1, 50, 100, 100, 90, 101)
+			}
+			if r.Intn(2) == 0 {
+				c["DeactivationLevel"] = pick(0, 1, 50, 100, 100, 75, 101)
+			}
+			if r.Intn(2) == 0 {
+				c["SamplingRate"] = pick(0, 1, 2, 100, int64(1)<<40, int64(1)<<62)
+			}
+			if r.Intn(2) == 0 {
+				c["MinimumActivationDuration"] = durs[r.Intn(len(durs))]
+			}
+			main["StressRelief"] = c
+		}
+		if r.Intn(4) == 0 {
+			main["General"] = map[string]any{"ConfigurationVersion": 2, "ConfigReloadInterval": durs[r.Intn(len(durs))]}
+		}
+		if r.Intn(4) == 0 {
+			main["IDFields"] = map[string]any{"TraceNames": pick([]any{}, []any{""}, []any{"trace.trace_id", ""}, []any{"x"}), "ParentNames": pick([]any{}, []any{""}, []any{"trace.parent_id"})}
+		}
+		if r.Intn(4) == 0 {
+			main["Specialized"] = map[string]any{"AdditionalAttributes": pick(map[string]any{}, map[string]any{"": "v"}, map[string]any{"k": ""}), "EnvironmentCacheTTL": atLeast("15m")}
+		}
+		return c28Input{Kind: "mainconfig", Main: main}
 	default:
 		in := c28Input{Kind: "requests"}
 		n := 6 + r.Intn(8)
@@ -366,7 +472,11 @@ func c28Gen(r *rand.Rand, tier string, i int) any {
 			n = 20 + r.Intn(40)
 		}
 		for k := 0; k < n; k++ {
-			in.Reqs = append(in.Reqs, c28GenReq(r))
+			if r.Intn(3) == 0 {
+				in.Reqs = append(in.Reqs, c28GenGrpc(r))
+			} else {
+				in.Reqs = append(in.Reqs, c28GenReq(r))
+			}
 		}
 		return in
 	}
@@ -409,6 +519,12 @@ func c28LoadConfig(dir string, samplers map[string]any, mainSections ...map[stri
 	samplers, _ = c28NormNums(samplers).(map[string]any)
 	main := "General:\n  ConfigurationVersion: 2\nRefineryTelemetry:\n  AddRuleReasonToTrace: true\n"
 	if len(mainSections) > 0 && mainSections[0] != nil {
+		if _, ok := mainSections[0]["General"]; ok {
+			main = "RefineryTelemetry:\n  AddRuleReasonToTrace: true\n"
+		}
+		if _, ok := mainSections[0]["Network"]; !ok {
+			main += "Network:\n  ListenAddr: 127.0.0.1:0\n  PeerListenAddr: 127.0.0.1:0\n"
+		}
 		mb, err := yaml.Marshal(c28NormNums(mainSections[0]))
 		if err != nil {
 			return nil, err
@@ -484,10 +600,39 @@ func c28BuildAndDecide(cfg config.Config, res *c28Result, tids []string) {
 		for _, tr := range c28Traces() {
 			s.GetSampleRate(tr)
 		}
+		// A rules-based sampler stops at the first matching rule: give EVERY rule its turn, once with its own
+		// conditions as the only rule and once without conditions (so that it certainly matches).
+		if sc, _ := cfg.GetSamplerConfigForDestName(k); sc != nil {
+			if rc, ok := sc.(*config.RulesBasedSamplerConfig); ok {
+				for _, rule := range rc.Rules {
+					if rule == nil {
+						continue
+					}
+					for _, strip := range []bool{false, true} {
+						one := &config.RulesBasedSamplerRule{Name: rule.Name, SampleRate: rule.SampleRate, Drop: rule.Drop, Scope: rule.Scope, Sampler: rule.Sampler}
+						if !strip {
+							one.Conditions = rule.Conditions
+						}
+						rs := &sample.RulesBasedSampler{Config: &config.RulesBasedSamplerConfig{Rules: []*config.RulesBasedSamplerRule{one}, CheckNestedFields: rc.CheckNestedFields},
+							Logger: &logger.NullLogger{}, Metrics: &metrics.NullMetrics{}, SamplerFactory: f}
+						if rs.Start() != nil {
+							continue
+						}
+						res.Samplers++
+						for _, tr := range c28Traces() {
+							rs.GetSampleRate(tr)
+						}
+					}
+				}
+			}
+		}
 	}
 }
 
 func c28Child(raw json.RawMessage) (Case, error) {
+	// a configuration that makes refinery allocate without bound should kill the child, not the machine
+	lim := uint64(12) << 30
+	syscall.Setrlimit(syscall.RLIMIT_AS, &syscall.Rlimit{Cur: lim, Max: lim})
 	var in c28Input
 	if err := json.Unmarshal(raw, &in); err != nil {
 		return Case{}, err
@@ -540,6 +685,32 @@ func c28Child(raw json.RawMessage) (Case, error) {
 		} else if err != nil {
 			res.RejectMsg = err.Error()
 		}
+	case "rulerate":
+		rule := map[string]any{"Name": "static", "SampleRate": in.Rate}
+		if in.Drop {
+			rule["Drop"] = true
+		}
+		if in.Scope != "" {
+			rule["Scope"] = in.Scope
+		}
+		samplers := map[string]any{"__default__": map[string]any{"RulesBasedSampler": map[string]any{"Rules": []any{rule}}}}
+		cfg, err := c28LoadConfig(dir, samplers)
+		c28Marker("loaded")
+		if cfg != nil {
+			res.Accepted = true
+			c28BuildAndDecide(cfg, &res, nil)
+		} else {
+			if err != nil {
+				res.RejectMsg = err.Error()
+			}
+			// not accepted: the model covers every int, so still run the sampler on the raw value
+			rs := &sample.RulesBasedSampler{Config: &config.RulesBasedSamplerConfig{Rules: []*config.RulesBasedSamplerRule{{Name: "static", SampleRate: int(in.Rate), Drop: in.Drop, Scope: in.Scope}}},
+				Logger: &logger.NullLogger{}, Metrics: &metrics.NullMetrics{}}
+			rs.Start()
+			for _, tr := range c28Traces() {
+				rs.GetSampleRate(tr)
+			}
+		}
 	case "mainconfig":
 		samplers := map[string]any{"__default__": map[string]any{"DeterministicSampler": map[string]any{"SampleRate": 1}}}
 		cfg, err := c28LoadConfig(dir, samplers, in.Main)
@@ -559,6 +730,39 @@ func c28Child(raw json.RawMessage) (Case, error) {
 				tx.Stop()
 			}
 			res.Samplers = 2
+			// ... and a whole node (collector workers, sample caches, stress relief, routers) from the same configuration
+			mn2 := newCrossMemNet()
+			node, nerr := crossStartFullNode(crossFullOpts{Addr: "http://node-a:8081", PeerList: []string{"http://node-a:8081"}, Net: mn2, CfgAny: cfg, Origin: "A"})
+			if nerr == nil {
+				res.Samplers = 3
+				for i := 0; i < 4; i++ {
+					data := map[string]any{"trace.trace_id": fmt.Sprintf("t%d", i%2), "sid": i, "name": "s", "x": i}
+					if i%2 == 1 {
+						data["trace.parent_id"] = "p"
+					}
+					node.PostBatch("ds", crossLegacyKey, []crossBatchEvent{{SampleRate: 1, Data: data}})
+				}
+				node.WaitIdle(2 * time.Second)
+				node.Stress.Recalc()
+				// The collector runs on a FAKE clock: advancing it fires every tick in between, so a
+				// nanosecond SendTicker must not be advanced across minutes and a 292-year one overflows the fake
+				// clock's arithmetic (both would be the harness spinning, not refinery).
+				step := tc.GetSendTickerValue()
+				if step >= time.Millisecond && step <= time.Hour {
+					for i := 0; i < 20; i++ {
+						node.CollClock.Advance(step)
+					}
+					node.CollClock.Advance(2 * time.Minute)
+				} else if step > 0 && step < time.Millisecond {
+					for i := 0; i < 50; i++ {
+						node.CollClock.Advance(step)
+					}
+				}
+				time.Sleep(30 * time.Millisecond)
+				node.Stop()
+			} else {
+				res.RejectMsg = "node start: " + nerr.Error()
+			}
 		} else if err != nil {
 			res.RejectMsg = err.Error()
 		}
@@ -577,6 +781,20 @@ func c28Child(raw json.RawMessage) (Case, error) {
 		var hops []crossHop
 		cfg := crossDefaultCfg()
 		cfg.QueryAuthToken = "tok"
+		grpcAddr := ""
+		for _, q := range in.Reqs {
+			if q.Router == "grpc" {
+				grpcAddr = c28FreePort()
+			}
+		}
+		if grpcAddr != "" {
+			on := config.DefaultTrue(true)
+			cfg.GetGRPCEnabledVal, cfg.GetGRPCListenAddrVal = true, grpcAddr
+			cfg.GetGRPCServerParameters = config.GRPCServerParameters{Enabled: &on, ListenAddr: grpcAddr,
+				MaxConnectionIdle: config.Duration(time.Minute), MaxConnectionAge: config.Duration(3 * time.Minute),
+				MaxConnectionAgeGrace: config.Duration(time.Minute), KeepAlive: config.Duration(time.Minute), KeepAliveTimeout: config.Duration(20 * time.Second),
+				MaxSendMsgSize: config.MemorySize(15 << 20), MaxRecvMsgSize: config.MemorySize(15 << 20)}
+		}
 		cfg.GetSamplerTypeVal = &config.DeterministicSamplerConfig{SampleRate: 1}
 		n, err := crossStartNode(crossNodeOpts{Addr: "http://node-a:8081", PeerList: []string{"http://node-a:8081", "http://node-b:8081"}, Net: mn, Cfg: cfg,
 			Collector:  &crossRecCollector{Node: "a", mu: &mu, log: &col},
@@ -586,8 +804,19 @@ func c28Child(raw json.RawMessage) (Case, error) {
 			return Case{}, err
 		}
 		defer n.Stop()
+		var gc *c28GrpcClient
+		if grpcAddr != "" {
+			if gc, err = c28DialGrpc(grpcAddr); err != nil {
+				return Case{}, err
+			}
+			defer gc.Close()
+		}
 		for _, q := range in.Reqs {
 			body, _ := base64.StdEncoding.DecodeString(q.Body)
+			if q.Router == "grpc" {
+				res.Statuses = append(res.Statuses, gc.Call(q.Path, q.Hdr, body))
+				continue
+			}
 			var req = httptest.NewRequest(q.Method, "http://refinery.test"+c28SafePath(q.Path), bytes.NewReader(body))
 			for k, v := range q.Hdr {
 				req.Header.Set(k, v)
@@ -755,6 +984,17 @@ func c28Run(raw json.RawMessage) (Case, error) {
 		if in.Rate >= 1<<32 {
 			tags = append(tags, "rate>=2^32")
 		}
+	case "rulerate":
+		acc := res.Accepted
+		if crashed || hung {
+			acc = c28AcceptedOnly(in)
+		}
+		kind = cq.App("KRuleRate", cq.Bool(acc), cq.Bool(in.Drop), c28Z(in.Rate), cq.Bool(crashed || hung))
+		sum["rate"], sum["drop"], sum["scope"], sum["accepted"] = in.Rate, in.Drop, in.Scope, acc
+		if in.Rate <= 0 && !in.Drop {
+			nontriv = true
+			tags = append(tags, "rule-rate<=0")
+		}
 	case "config", "mainconfig":
 		acc := res.Accepted
 		loadCrashed, runCrashed := false, false
@@ -862,6 +1102,8 @@ func c28AcceptedOnly(in c28Input) bool {
 		samplers = map[string]any{"__default__": map[string]any{"DynamicSampler": map[string]any{"SampleRate": 2, "FieldList": in.Fields}}}
 	case "detrate":
 		samplers = map[string]any{"__default__": map[string]any{"DeterministicSampler": map[string]any{"SampleRate": in.Rate}}}
+	case "rulerate":
+		samplers = map[string]any{"__default__": map[string]any{"RulesBasedSampler": map[string]any{"Rules": []any{map[string]any{"Name": "static", "SampleRate": in.Rate, "Drop": in.Drop}}}}}
 	default:
 		return false
 	}
